@@ -4,6 +4,7 @@ import Driver.Hashes
 import Driver.Bg4
 import Driver.CrashFS
 import Driver.ShardStream
+import Driver.Pointer
 import Driver.Shard
 import Driver.InterpSearch
 import Driver.Dedup
@@ -38,6 +39,7 @@ def dispatch (blob : Blob) (line : String) : String :=
     else if cmd.startsWith "bg4." then handleBg4 blob cmd rest
     else if cmd.startsWith "crash." then handleCrash blob cmd rest
     else if cmd.startsWith "sstream." then handleShardStream blob cmd rest
+    else if cmd.startsWith "ptr." then handlePtr blob cmd rest
     else "bad-op"
 
 /-- usage: xetdriver <ops.txt> <blob.bin> <model.out> -/
